@@ -9,7 +9,9 @@
 //!
 //! Part 2 – pool histories: the stack pool is made tiny (`set_pool_capacity(2)`, FIFO) so that stacks are reused at
 //! once. A *predecessor* coroutine uses CLS and ends normally / by a panic / cancelled while parked / after a
-//! `park` that timed out / as a `cqueue` arm that is removed around its `send` (the window of defect F8); then fresh
+//! `park` that timed out / as a `cqueue` arm that is removed around its `send` (the window of defect F8) / cancelled while
+//! parked with a guard on its stack whose `Drop` yields (`yield_now`), sleeps 1 ms or parks with a time-out DURING the
+//! Cancel unwind (the `yield_with` shortcut sets `Canceled`; only `check_cancel`'s `get_co_para` clears it); then fresh
 //! coroutines (default stack size) are spawned whose FIRST action is a blocking call with an observable result:
 //! `Blocker::park(Some(d))` that is unparked (must be `Ok`), the same without unpark (must be `Timeout`, never
 //! `Canceled`), a contended `Mutex::lock()` (must not panic with Cancel / "mutex timeout"), `sleep(d)` (not early),
@@ -17,7 +19,8 @@
 //!
 //! API events: `co.start c` · `cls.with k` → id · `cls.init id k` (inside `with`) · `cls.drop id k` · `co.end c how`
 //! (0 normal, 1 panic, 2 cancelled) · `first.park u` → 0 Ok / 1 Timeout / 2 Canceled · `first.lock` → 0 · `first.sleep`
-//! → 0 · `stack.reuse c` (the fresh coroutine runs on a predecessor's stack).
+//! → 0 · `stack.reuse c` (the fresh coroutine runs on a predecessor's stack) · `unwind.yield` / `unwind.sleep` /
+//! `unwind.park` → code (blocking calls of a `Drop` impl during the Cancel unwind).
 use super::{spawn_actor_thread, LiveBuilt};
 use crate::rt::{call, ret, Rng};
 use may::coroutine::{self, ParkError};
@@ -141,6 +144,42 @@ enum Pred {
     CancelledParked,
     ParkTimedOut,
     SelArm,
+    /// cancelled while parked; a guard on its stack yields / sleeps / parks in its `Drop`, i.e. during the Cancel unwind
+    DropYield,
+    DropSleep,
+    DropPark,
+}
+
+/// its `Drop` makes a blocking call while the Cancel panic unwinds the coroutine
+struct UnwindGuard(Pred);
+impl Drop for UnwindGuard {
+    fn drop(&mut self) {
+        if !std::thread::panicking() {
+            return;
+        }
+        match self.0 {
+            Pred::DropYield => {
+                call("unwind.yield", 0, 0);
+                coroutine::yield_now();
+                ret("unwind.yield", 0);
+            }
+            Pred::DropSleep => {
+                call("unwind.sleep", 0, 0);
+                coroutine::sleep(Duration::from_millis(1));
+                ret("unwind.sleep", 0);
+            }
+            Pred::DropPark => {
+                call("unwind.park", 0, 0);
+                let r = Blocker::current().park(Some(Duration::from_millis(1)));
+                ret("unwind.park", match r {
+                    Ok(()) => 0,
+                    Err(ParkError::Timeout) => 1,
+                    Err(ParkError::Canceled) => 2,
+                });
+            }
+            _ => {}
+        }
+    }
 }
 #[derive(Clone, Copy, Debug, PartialEq)]
 enum First {
@@ -303,11 +342,16 @@ fn run(spec: Spec) -> Vec<String> {
                                     let b = Blocker::current();
                                     let _ = b.park(None);
                                 }
+                                Pred::DropYield | Pred::DropSleep | Pred::DropPark => {
+                                    call("co.end", 2, 0);
+                                    let _g = UnwindGuard(pred2);
+                                    p2.store(true, SeqCst);
+                                    let b = Blocker::current();
+                                    let _ = b.park(None);
+                                }
                                 Pred::ParkTimedOut => {
                                     let b = Blocker::current();
-                                    // 12 ms, not 1 ms: `Park::subscribe` arms the timer before it publishes the coroutine (defect F6 of C08); on a loaded
-                                    // machine a 1 ms timer can fire inside that window and the time-out is lost for ever
-                                    let r = b.park(Some(Duration::from_millis(12)));
+                                    let r = b.park(Some(Duration::from_millis(1)));
                                     if r != Err(ParkError::Timeout) {
                                         // reported below through the generic first-call oracle only when it matters
                                     }
@@ -318,7 +362,7 @@ fn run(spec: Spec) -> Vec<String> {
                         })
                         .unwrap()
                 };
-                if *pred == Pred::CancelledParked {
+                if matches!(pred, Pred::CancelledParked | Pred::DropYield | Pred::DropSleep | Pred::DropPark) {
                     let t0 = Instant::now();
                     while !parked.load(SeqCst) && t0.elapsed() < Duration::from_secs(5) {
                         std::thread::sleep(Duration::from_micros(50));
@@ -358,7 +402,7 @@ fn run(spec: Spec) -> Vec<String> {
                                 call("first.park", unp as u64, 0);
                                 let b = Blocker::current();
                                 *blk2.lock().unwrap() = Some(b.clone());
-                                let d = if unp { Duration::from_secs(5) } else { Duration::from_millis(12) }; // see F6 above
+                                let d = if unp { Duration::from_secs(5) } else { Duration::from_millis(1) };
                                 let r = b.park(Some(d));
                                 let code = match r {
                                     Ok(()) => 0,
@@ -367,7 +411,7 @@ fn run(spec: Spec) -> Vec<String> {
                                 };
                                 ret("first.park", code);
                                 if code == 2 {
-                                    bad(format!("stale-para: the first park of the fresh coroutine {who} returned Canceled although nobody cancelled it"));
+                                    bad(format!("stale-para: the fresh coroutine {who} saw a cancellation nobody requested: its first park returned Canceled"));
                                 } else if unp && code == 1 {
                                     bad(format!("stale-para: the first park (5 s) of the fresh coroutine {who} returned Timeout although it was unparked at once"));
                                 } else if !unp && code == 0 {
@@ -426,7 +470,7 @@ fn run(spec: Spec) -> Vec<String> {
             if let Err(e) = h.join() {
                 // the payload of a Cancel panic is `generator::Error::Cancel` (not a string)
                 let what = e.downcast_ref::<String>().cloned().or(e.downcast_ref::<&str>().map(|s| s.to_string())).unwrap_or_else(|| "a Cancel panic (non-string payload)".into());
-                fail(format!("fresh-panic: the fresh coroutine {fname} (first action {first:?} after a predecessor that {pred:?}) ended with {what}"));
+                fail(format!("fresh-panic: the fresh coroutine {fname} saw a cancellation or error nobody requested: first action {first:?} after a predecessor that {pred:?} ended with {what}"));
             }
             GRAVE.lock().unwrap().push(co);
         }
@@ -495,12 +539,15 @@ pub fn build(rng: &mut Rng, tier: u32) -> LiveBuilt {
     let nh = 1 + rng.below(3) as usize;
     let hist = (0..nh)
         .map(|_| {
-            let pred = match rng.below(7) {
+            let pred = match rng.below(10) {
                 0 => Pred::Normal,
                 1 => Pred::Panic,
                 2 => Pred::CancelledParked,
                 3 => Pred::ParkTimedOut,
-                _ => Pred::SelArm,
+                4 | 5 => Pred::SelArm,
+                6 | 7 => Pred::DropYield,
+                8 => Pred::DropSleep,
+                _ => Pred::DropPark,
             };
             let firsts = (0..2 + rng.below(2))
                 .map(|_| match rng.below(6) {
